@@ -180,9 +180,14 @@ def run_hint(case, acc):
 
 PRIME_DECLS = {
     'P1': dict(vars=[('p', 'bool'), ('x', (0, 2)), ('y', (-2, 1)),
-                     ('z', (-3, -1))], consts=[('c', (0, 2)), ('d', 'bool')]),
+                     ('z', (-3, -1))], consts=[('c', (0, 2)), ('d', 'bool')],
+               twins=[('p2', 'bool'), ('x2', (0, 2)), ('z2', (-3, -1))],
+               renamings=[{'x': 'x2'}, {'p': 'p2'}, {'x': 'x2', 'p': 'p2'},
+                          {'z': 'z2', 'x': 'x2'}]),
     'P2': dict(vars=[('q', 'bool'), ('x', (1, 5)), ('y', (-1, 1))],
-               consts=[('c', (-2, -1))]),
+               consts=[('c', (-2, -1))],
+               twins=[('q2', 'bool'), ('y2', (-1, 1))],
+               renamings=[{'y': 'y2'}, {'q': 'q2'}, {'q': 'q2', 'y': 'y2'}]),
 }
 PMENU = {
     'P1': ["TRUE", "FALSE", "p", "x = 1", "y < 0", "z = -1", "c = 2", "d",
@@ -211,7 +216,7 @@ def run_prime(case, acc):
     if case['backend'] == 'autoref':
         import dd.autoref
         aut.bdd = dd.autoref.BDD()
-    aut.declare_variables(**dict(d['vars']))
+    aut.declare_variables(**dict(d['vars'] + d['twins']))
     aut.declare_constants(**dict(d['consts']))
     flex = [v for v, _ in d['vars']]
     rigid = [v for v, _ in d['consts']]
@@ -308,5 +313,31 @@ def run_prime(case, acc):
         if prm.is_primed_state_predicate(u, aut) != (not sem['flexible']):
             bad('is_primed_state_predicate_wrong',
                 got=prm.is_primed_state_predicate(u, aut))
+    # rename_variables: unprimed and primed occurrences together
+    for ren in d['renamings']:
+        n += 1
+        full = dict(ren)
+        full.update({k + "'": v + "'" for k, v in ren.items()})
+        rn = [full.get(v, v) for v in names]
+        try:
+            r = prm.rename_variables(dict(ren), u, aut)
+        except Exception as exc:  # noqa
+            bad('rename_variables_raises', renaming=ren, exc=repr(exc)[:200])
+            continue
+        supp_r = {bitowner_all(aut, b) for b in aut.bdd.support(r)}
+        if not supp_r <= set(rn):
+            bad('rename_variables_wrong_support', renaming=ren,
+                support=sorted(supp_r), expected_within=rn)
+            continue
+        t = ro.Reader(aut, rn).table(r)
+        if t != T:
+            bad('rename_variables_wrong', renaming=ren, vars=rn)
     acc.ev(dict(c=case), nontrivial=bool(sem['flexible'] or sem['primed']),
            n=n)
+
+
+def bitowner_all(aut, bit):
+    for v in aut.vars:
+        if bit in ro.bits_of(aut, v):
+            return v
+    return bit
